@@ -1,0 +1,365 @@
+//! Verification hooks (cargo feature `verif`, off by default).
+//!
+//! Everything in this module is inert unless a deterministic simulator running on
+//! the *same thread* installs callbacks with [`install`]. With the feature off the
+//! module is not compiled at all and none of the call sites exist.
+//!
+//! Three kinds of hooks:
+//! * `yield_async(label).await` – cooperative scheduling point in async code. When a
+//!   simulator is active and wants the point, the future returns `Pending` once and
+//!   hands its waker to the simulator, which decides when the task proceeds.
+//! * `yield_sync(label)` – scheduling point in synchronous code. Calls back into the
+//!   simulator on the same stack; the simulator may run other work inside the window.
+//! * `note(kind, a, b)` – read-out of internal values (sequence numbers, WAL numbers).
+//!
+//! Plus thin public wrappers around crate-private components so that component-level
+//! checks (commit log framing, conflict oracle) can drive the real code.
+
+use std::cell::{Cell, RefCell};
+use std::future::Future;
+use std::path::Path;
+use std::pin::Pin;
+use std::rc::Rc;
+use std::sync::Arc;
+use std::task::{Context, Poll, Waker};
+
+use crate::compaction::leveled::Strategy;
+use crate::lsm::CompactionOperations;
+use crate::{Result, Transaction, Tree};
+
+/// Callbacks installed by the simulator (per thread).
+#[derive(Clone)]
+pub struct Hooks {
+	/// Asked at every async yield point: `true` = park this task here.
+	pub want_async: Rc<dyn Fn(&'static str) -> bool>,
+	/// Called at every sync yield point (may run nested work).
+	pub on_sync: Rc<dyn Fn(&'static str)>,
+	/// Called for every note.
+	pub on_note: Rc<dyn Fn(&'static str, u64, u64)>,
+}
+
+thread_local! {
+	static HOOKS: RefCell<Option<Hooks>> = const { RefCell::new(None) };
+	static PARKED: RefCell<Vec<(&'static str, Waker)>> = const { RefCell::new(Vec::new()) };
+	static GC_INTERVAL: Cell<Option<u32>> = const { Cell::new(None) };
+}
+
+/// Install simulator callbacks for the current thread.
+pub fn install(h: Hooks) {
+	HOOKS.with(|c| *c.borrow_mut() = Some(h));
+}
+
+/// Remove simulator callbacks for the current thread.
+pub fn uninstall() {
+	HOOKS.with(|c| *c.borrow_mut() = None);
+	PARKED.with(|c| c.borrow_mut().clear());
+	GC_INTERVAL.with(|c| c.set(None));
+}
+
+/// Tasks currently parked at async yield points: `(label, waker)`; drained by the simulator.
+pub fn take_parked() -> Vec<(&'static str, Waker)> {
+	PARKED.with(|c| std::mem::take(&mut *c.borrow_mut()))
+}
+
+/// Number of tasks parked and not yet taken.
+pub fn parked_len() -> usize {
+	PARKED.with(|c| c.borrow().len())
+}
+
+/// Override the conflict-oracle GC interval for stores used on this thread.
+pub fn set_oracle_gc_interval(n: Option<u32>) {
+	GC_INTERVAL.with(|c| c.set(n));
+}
+
+pub(crate) fn oracle_gc_interval() -> Option<u32> {
+	GC_INTERVAL.with(|c| c.get())
+}
+
+fn hooks() -> Option<Hooks> {
+	HOOKS.with(|c| c.try_borrow().ok().and_then(|h| h.clone()))
+}
+
+/// Synchronous yield point.
+pub(crate) fn yield_sync(label: &'static str) {
+	if let Some(h) = hooks() {
+		(h.on_sync)(label);
+	}
+}
+
+/// Read-out.
+pub(crate) fn note(kind: &'static str, a: u64, b: u64) {
+	if let Some(h) = hooks() {
+		(h.on_note)(kind, a, b);
+	}
+}
+
+/// Future returned by [`yield_async`].
+pub(crate) struct YieldAsync {
+	label: &'static str,
+	polled: bool,
+}
+
+impl Future for YieldAsync {
+	type Output = ();
+
+	fn poll(mut self: Pin<&mut Self>, cx: &mut Context<'_>) -> Poll<()> {
+		if self.polled {
+			return Poll::Ready(());
+		}
+		self.polled = true;
+		let park = match hooks() {
+			Some(h) => (h.want_async)(self.label),
+			None => false,
+		};
+		if park {
+			let label = self.label;
+			PARKED.with(|c| c.borrow_mut().push((label, cx.waker().clone())));
+			Poll::Pending
+		} else {
+			Poll::Ready(())
+		}
+	}
+}
+
+/// Asynchronous yield point.
+pub(crate) fn yield_async(label: &'static str) -> YieldAsync {
+	YieldAsync {
+		label,
+		polled: false,
+	}
+}
+
+// ===== Entry points and read-outs on the store =====
+
+/// Description of one table in the level structure.
+#[derive(Debug, Clone, PartialEq, Eq)]
+pub struct TableInfo {
+	pub id: u64,
+	pub file_size: u64,
+	pub smallest_seq: u64,
+	pub largest_seq: u64,
+	pub num_entries: u64,
+	pub num_deletions: u64,
+	pub oldest_vlog_file_id: u64,
+}
+
+impl Tree {
+	/// Rotate the active memtable into the immutable queue (no flush).
+	pub fn verif_rotate(&self) -> Result<()> {
+		self.core.inner.rotate_memtable()
+	}
+
+	/// Flush the oldest immutable memtable, exactly as the background task body does.
+	/// Returns whether an immutable memtable existed.
+	pub fn verif_flush_one(&self) -> Result<bool> {
+		let had = self.core.inner.has_pending_immutables();
+		self.core.inner.compact_memtable()?;
+		self.core.write_stall.signal_work_done();
+		Ok(had)
+	}
+
+	/// Rotate (if non-empty) and flush every immutable memtable.
+	pub fn verif_flush_all(&self) -> Result<()> {
+		self.core.inner.rotate_memtable()?;
+		self.core.inner.flush_all_immutables_sync()?;
+		self.core.write_stall.signal_work_done();
+		Ok(())
+	}
+
+	/// One round of level compaction with the configured leveled strategy, exactly as
+	/// the background task body does. Returns whether the level shape changed.
+	pub fn verif_compact_round(&self) -> Result<bool> {
+		let before = self.verif_level_shape();
+		let strategy = Arc::new(Strategy::from_options(Arc::clone(&self.core.inner.opts)));
+		self.core.inner.compact(strategy)?;
+		self.core.write_stall.signal_work_done();
+		Ok(before != self.verif_level_shape())
+	}
+
+	/// The visibility horizon.
+	pub fn verif_visible_seq(&self) -> u64 {
+		self.core.seq_num()
+	}
+
+	/// Tables per level.
+	pub fn verif_level_shape(&self) -> Vec<Vec<TableInfo>> {
+		let m = self.core.inner.level_manifest.read().unwrap();
+		m.levels
+			.get_levels()
+			.iter()
+			.map(|l| {
+				l.tables
+					.iter()
+					.map(|t| TableInfo {
+						id: t.id,
+						file_size: t.file_size,
+						smallest_seq: t.meta.properties.seqnos.0,
+						largest_seq: t.meta.properties.seqnos.1,
+						num_entries: t.meta.properties.num_entries,
+						num_deletions: t.meta.properties.num_deletions,
+						oldest_vlog_file_id: t.meta.properties.oldest_vlog_file_id as u64,
+					})
+					.collect()
+			})
+			.collect()
+	}
+
+	/// `(log_number, last_sequence)` of the in-memory manifest.
+	pub fn verif_manifest_state(&self) -> (u64, u64) {
+		let m = self.core.inner.level_manifest.read().unwrap();
+		(m.get_log_number(), m.get_last_sequence())
+	}
+
+	/// Number of immutable memtables awaiting flush.
+	pub fn verif_immutable_count(&self) -> usize {
+		self.core.inner.immutable_count()
+	}
+
+	/// Size in bytes of the active memtable's arena use.
+	pub fn verif_active_memtable_size(&self) -> usize {
+		self.core.inner.active_memtable.read().unwrap().size()
+	}
+
+	/// Sequence numbers registered by open snapshots.
+	pub fn verif_snapshots(&self) -> Vec<u64> {
+		self.core.inner.snapshot_tracker.get_all_snapshots()
+	}
+
+	/// The active WAL segment number.
+	pub fn verif_active_wal_number(&self) -> u64 {
+		self.core.inner.wal.read().get_active_log_number()
+	}
+
+	/// Whether a background error has been recorded.
+	pub fn verif_background_error(&self) -> Option<String> {
+		self.core.inner.error_handler.check_error().err().map(|e| e.to_string())
+	}
+
+	/// Ask the background flush task to run (same call the commit path makes).
+	pub fn verif_wake_flush_task(&self) {
+		if let Some(tm) = self.core.task_manager.lock().unwrap().as_ref() {
+			tm.wake_up_memtable();
+		}
+	}
+
+	/// Ask the background compaction task to run.
+	pub fn verif_wake_level_task(&self) {
+		if let Some(tm) = self.core.task_manager.lock().unwrap().as_ref() {
+			tm.wake_up_level();
+		}
+	}
+}
+
+impl Transaction {
+	/// The visibility horizon captured when the transaction began.
+	pub fn verif_start_seq(&self) -> u64 {
+		self.start_seq_num
+	}
+}
+
+// ===== Commit log (WAL) component wrappers =====
+
+/// The commit log writer/manager (real `wal::manager::Wal`).
+pub struct VerifWal(crate::wal::Wal);
+
+/// Outcome of reading a segment to its end.
+#[derive(Debug, Clone, PartialEq, Eq)]
+pub enum WalReadEnd {
+	/// Clean end of log.
+	Eof,
+	/// Corruption report `(offset, message)`.
+	Corruption(u64, String),
+	/// Any other error.
+	Other(String),
+}
+
+impl VerifWal {
+	pub fn open(dir: &Path, compressed: bool) -> Result<Self> {
+		let mut opts = crate::wal::Options::default();
+		if compressed {
+			opts = opts.with_compression(crate::wal::CompressionType::Lz4);
+		}
+		Ok(Self(crate::wal::Wal::open(dir, opts)?))
+	}
+
+	pub fn append(&mut self, rec: &[u8]) -> Result<u64> {
+		Ok(self.0.append(rec)?)
+	}
+
+	pub fn sync(&mut self) -> Result<()> {
+		Ok(self.0.sync()?)
+	}
+
+	pub fn flush(&mut self) -> Result<()> {
+		Ok(self.0.flush()?)
+	}
+
+	pub fn close(&mut self) -> Result<()> {
+		Ok(self.0.close()?)
+	}
+
+	pub fn rotate(&mut self) -> Result<u64> {
+		Ok(self.0.rotate()?)
+	}
+
+	pub fn active_log_number(&self) -> u64 {
+		self.0.get_active_log_number()
+	}
+}
+
+/// Read every record of one segment file with the real `wal::reader::Reader`.
+pub fn wal_read_segment(path: &Path) -> std::io::Result<(Vec<Vec<u8>>, WalReadEnd)> {
+	let file = std::fs::File::open(path)?;
+	let mut reader = crate::wal::reader::Reader::new(file);
+	let mut out = Vec::new();
+	loop {
+		match reader.read() {
+			Ok((rec, _)) => out.push(rec.to_vec()),
+			Err(crate::wal::Error::IO(e)) if e.kind() == std::io::ErrorKind::UnexpectedEof => {
+				return Ok((out, WalReadEnd::Eof));
+			}
+			Err(crate::wal::Error::Corruption(c)) => {
+				return Ok((out, WalReadEnd::Corruption(c.offset, c.to_string())));
+			}
+			Err(e) => return Ok((out, WalReadEnd::Other(e.to_string()))),
+		}
+	}
+}
+
+/// Run the real segment repair.
+pub fn wal_repair_segment(wal_dir: &Path, segment_id: usize) -> Result<()> {
+	crate::wal::recovery::repair_corrupted_wal_segment(wal_dir, segment_id)
+}
+
+// ===== Conflict oracle component wrapper =====
+
+/// The real `CommitOracle`.
+pub struct VerifOracle(crate::oracle::CommitOracle);
+
+impl Default for VerifOracle {
+	fn default() -> Self {
+		Self::new()
+	}
+}
+
+impl VerifOracle {
+	pub fn new() -> Self {
+		Self(crate::oracle::CommitOracle::new())
+	}
+
+	pub fn check(&self, keys: &[&[u8]], start_seq: u64) -> Result<()> {
+		self.0.check(keys.iter().copied(), start_seq)
+	}
+
+	pub fn publish(&self, keys: &[&[u8]], seq_num: u64, count: u64, oldest_active: u64) {
+		self.0.publish(keys.iter().copied(), seq_num, count, oldest_active)
+	}
+
+	pub fn rollback(&self, keys: &[&[u8]], my_seq: u64) {
+		self.0.rollback(keys.iter().copied(), my_seq)
+	}
+
+	pub fn reset_for_restore(&self, max_seq: u64) {
+		self.0.reset_for_restore(max_seq)
+	}
+}
